@@ -44,7 +44,7 @@ def parsePol (s : String) : Option (PolicyTag × Filter) :=
 def parseLT (s : String) : Option LinkType :=
   if s == "core" then some .core else if s == "parent" then some .parent
   else if s == "child" then some .child else if s == "peer" then some .peer
-  else if s == "unset" then some .unset else none
+  else if s == "unset" then some .unset else if s.startsWith "other" then some .other else none
 
 def parseIntf (s : String) : Option (Option Intf) :=
   if s == "-" then some none
